@@ -22,6 +22,8 @@ EXPLANATION = (
 
 
 def run(ctx: Ctx) -> None:
+    from rules import generic as _G
+    ctx.run(_G.rule_arity, _G.full_scope(ctx), "R-ARITY", 400)
     scope = G.full_scope(ctx)
     ctx.run(G.rule_kw, scope, "R-KW", 100)
     ctx.run(G.rule_kw_splat, scope, "R-KW-splat", 5)
